@@ -146,13 +146,12 @@ def run(analysis: Analysis, tier: str) -> RuleResult:
     for o in res.obs[before:]:
         o.rule = "C06-R5"
     res.reindex()
-    # R5: loader restores integer keys
+    # R5: the loader restores integer keys (ids are compared as ints): by evaluating the object hook on an
+    # all-digit dict, wherever its body lives (C11-R3, shared)
+    from . import c11
+
     info = analysis.p.func("persistence:MySensorsJSONDecoder.dict_to_object")
-    ok = False
-    for node in ast.walk(info.node):
-        if isinstance(node, ast.DictComp) and unparse(node.key).startswith("int("):
-            ok = True
-    res.add("C06-R5", "persistence:MySensorsJSONDecoder.dict_to_object / integer keys are restored", ok, common.where(analysis, info, info.node), "{int(k): v ...} for all-digit keys")
+    c11.digit_keys_rule(analysis, res, "C06-R5", common.where(analysis, info, info.node))
     res.units = {"id_request_paths": n, "answering_paths": answered, "contexts": len(specs), "source_digest": analysis.p.digest()}
     res.not_decided = ["uniqueness if user code edits gateway.sensors directly"]
     res.trusted = ["arithmetic fact: max(keys)+k (k>=1) is not a key", "sa/extmodel.py"]
